@@ -1,7 +1,14 @@
 package scratch
 import ("testing";"fmt";"github.com/rulego/streamsql/rsql")
 func TestX(t *testing.T){
- for _,q:=range []string{"SELECT x, meta.ver AS a3 FROM stream JOIN meta ON meta.tk1 = dev.sk1","SELECT x FROM stream s JOIN meta m ON m.tk1 = s.sk1", "SELECT x FROM stream JOIN meta ON meta.tk1 = sk1"}{
-  cfg,_,err:=rsql.Parse(q); fmt.Printf("%v %+v\n",err,cfg.JoinConfigs)
+ for _,q:=range []string{
+  "SELECT g, count(*) AS c FROM stream GROUP BY g, TumblingWindow('1s') WITH (TIMESTAMP='ts', TIMEUNIT='ms') HAVING c > 1",
+  "SELECT g, count(*) AS c FROM stream GROUP BY g, TumblingWindow('1s') WITH (TIMESTAMP='ts', TIMEUNIT='ms') HAVING c > 1 ORDER BY c DESC LIMIT 3",
+  "SELECT g, count(*) AS c FROM stream GROUP BY g, TumblingWindow('1s') HAVING c > 1 WITH (TIMESTAMP='ts', TIMEUNIT='ms') ORDER BY c",
+  "SELECT g, count(*) AS c FROM stream GROUP BY g, TumblingWindow('1s') WITH (TIMESTAMP='ts', TIMEUNIT='ms') ORDER BY c LIMIT 2",
+  "SELECT g, count(*) AS c FROM stream GROUP BY g, TumblingWindow('1s') WITH (TIMESTAMP='ts')",
+  "SELECT g, count(*) AS c FROM stream GROUP BY g WITH (TIMESTAMP='ts', TIMEUNIT='ss') HAVING c >= 2"}{
+  cfg,_,err:=rsql.Parse(q); if err!=nil{fmt.Println("ERR",err);continue}
+  fmt.Printf("having=%q order=%v limit=%d ts=%q unit=%v\n",cfg.Having,cfg.OrderBy,cfg.Limit,cfg.WindowConfig.TsProp,cfg.WindowConfig.TimeUnit)
  }
 }
